@@ -1,7 +1,6 @@
 (* Framing.v - model of socket_base::match_eol + boost::asio::read_until over a dynamic string
    buffer with a size cap (include/ftp/detail/socket_base.hpp:98-141), control_connection::read_line
-   (src/control_connection.cpp:276-295) and control_connection::recv (132-236, without the 421
-   branch, which lives in the protocol model).
+   (src/control_connection.cpp:276-295) and control_connection::recv (132-236; its 421 branch is [recv_step]).
    [strict_cr] = the code after "fix: do not split a CRLF line terminator that spans two reads";
    [eof_check] = the code after "fix: report an error when the control connection is closed inside
    a multi-line reply". Both false = the pinned code. *)
@@ -131,11 +130,21 @@ Definition recv (c : fcfg) (s : conn) : res reply * conn :=
 Definition fixed_cfg (m : nat) : fcfg := mkCfg true true m.
 Definition pinned_cfg (m : nat) : fcfg := mkCfg false false m.
 
+(* the 421 rule of control_connection::recv: the reply is returned, the connection is closed and what was still
+   unread is dropped (control_connection::disconnect); every later receive step fails *)
+Definition closed_conn : conn := mkConn [] (mkT [] [] EndErr).
+Definition recv_step (c : fcfg) (s : conn) : res reply * conn :=
+  let '(r, s') := recv c s in
+  match r with
+  | Ok rep => if code rep =? 421 then (r, closed_conn) else (r, s')
+  | _ => (r, s')
+  end.
+
 (* k successive receive steps *)
 Fixpoint recv_n (k : nat) (c : fcfg) (s : conn) : list (res reply) * conn :=
   match k with
   | O => ([], s)
-  | S k' => let '(r, s') := recv c s in
+  | S k' => let '(r, s') := recv_step c s in
             match r with
             | Ok _ => let '(rs, s'') := recv_n k' c s' in (r :: rs, s'')
             | _ => ([r], s')
